@@ -1,6 +1,58 @@
+(* C17 — Relay receive path delivers datagrams in order and never wedges.
+   This file holds ONLY the property theorems; each is closed by `exact`. *)
 From V Require Import Lib.Base Lib.MachineInt Model.C16 Model.C17 Proofs.C17.
-Import C17.
+Import C16 C17.
 Open Scope N_scope.
-Theorem C17_refuted : monitor w1 (model w1) = false /\ monitor w2 (model w2) = false.
-Proof. exact wedge_refuted. Qed.
-Print Assumptions C17_refuted.
+
+(* For every history of arrivals (any contents, segment size 1..65535, source) and polls
+   whose receive buffers all have size B, in any interleaving: the datagrams handed to QUIC,
+   followed by the fitting datagrams still held by the transport, are exactly the arrived
+   datagrams that fit B - same order, each once, nothing else. *)
+Theorem C17_recv_in_order_exactly_once : forall B evs,
+  B <= USIZE_MAX -> Forall (ev_ok B) evs ->
+  delivered_of (model evs) ++ filter (fits B) (queue_dgs (final st0 evs))
+  = filter (fits B) (arrivals_of evs).
+Proof. exact recv_in_order_exactly_once. Qed.
+Print Assumptions C17_recv_in_order_exactly_once.
+
+(* ... hence once the transport holds nothing any more, every arrived datagram that fits has
+   been delivered and only those that do not fit were discarded. *)
+Theorem C17_drained_all_delivered : forall B evs,
+  B <= USIZE_MAX -> Forall (ev_ok B) evs ->
+  pending (final st0 evs) = None -> chan (final st0 evs) = [] ->
+  delivered_of (model evs) = filter (fits B) (arrivals_of evs).
+Proof. exact drained_all_delivered. Qed.
+Print Assumptions C17_drained_all_delivered.
+
+(* Every poll with at least one buffer (any sizes), in every state: Ready with at least one
+   slot and strictly less queued input, or the closed-queue error, or Pending with the waker
+   registered, the queue open and nothing left in the transport. *)
+Theorem C17_progress_or_registered : forall s bufs,
+  wf_st s -> all_le bufs -> bufs <> [] ->
+  let '(s', r, reg) := poll_recv s bufs in
+  (exists slots, r = Ready slots /\ slots <> [] /\ (qsize s' < qsize s)%nat) \/
+  (r = ErrClosed /\ closed s = true) \/
+  (r = Pending /\ reg = true /\ pending s' = None /\ chan s' = [] /\ wk s' = true /\ closed s' = false).
+Proof. exact progress_or_registered. Qed.
+Print Assumptions C17_progress_or_registered.
+
+(* After Pending, the next arrival wakes the poller. *)
+Theorem C17_pending_then_arrival_wakes : forall s bufs it,
+  wf_st s -> all_le bufs -> bufs <> [] ->
+  let '(s', r, _) := poll_recv s bufs in
+  r = Pending -> snd (step s' (Arrive it)) = OArrive true.
+Proof. exact pending_then_arrival_wakes. Qed.
+Print Assumptions C17_pending_then_arrival_wakes.
+
+(* Never wedges: polling again and again (no arrivals) reaches Pending (or the closed-queue
+   error) within qsize s + 1 polls, i.e. everything queued is handed out or discarded. *)
+Theorem C17_repeated_polls_drain : forall n s B,
+  wf_st s -> B <= USIZE_MAX -> (qsize s < n)%nat ->
+  exists r, In r (snd (poll_n s B n)) /\ (r = Pending \/ r = ErrClosed).
+Proof. exact drains. Qed.
+Print Assumptions C17_repeated_polls_drain.
+
+(* The loop never runs out of fuel and the model's output satisfies the monitor, for EVERY input. *)
+Theorem C17_model_satisfies_monitor : forall i, monitor i (model i) = true.
+Proof. exact model_monitor. Qed.
+Print Assumptions C17_model_satisfies_monitor.
